@@ -160,7 +160,8 @@ theorem exact_run_rows_differ (c : Cfg) (V : List Vec) (is : List IterIn) (x0 : 
           r.x.getD s 0 - x.getD s 0 = mulVec (c.ev x t).cols r.counts s
             + (if r.branch = .tau then (c.ev x t).pure.getD s 0 * r.dt else 0)) x t rs →
         Steps (fun x t r => r.counts.length = (c.ev x t).rates.length ∧ (true = true → r.branch = .exact) ∧
-          (r.branch ≠ .tau → ∃ k, k < (c.ev x t).rates.length ∧ r.counts = onehot (c.ev x t).rates.length k ∧ r.counts.sum = 1)) x t rs →
+          (r.branch ≠ .tau → ∃ k, k < (c.ev x t).rates.length ∧ r.counts = onehot (c.ev x t).rates.length k ∧ r.counts.sum = 1 ∧
+            ∃ rk, (c.ev x t).rates[k]? = some rk ∧ 0 < rk)) x t rs →
         Steps (fun x t r => r.x.length = x.length ∧ ∀ s, s < x.length →
           r.x.getD s 0 = x.getD s 0 + mulVec V r.counts s) x t rs := by
       intro rs
